@@ -133,7 +133,6 @@ func c05QRDamage(r *fw.Rec, s *qrSym, kind int) bool {
 	return ok
 }
 
-
 func randSubset(rng *fw.Rand, n, maxK int) []int {
 	k := rng.Intn(maxK + 1)
 	p := rng.Perm(n)
